@@ -276,6 +276,52 @@ func ruleC04Subst(c *ctx.Ctx, r *core.Reporter) {
 		})
 	}
 	r.Count("raw types.Info type accessors in package compiler", n)
+	// the reviewed Implicits exception holds only if every read of the implicit object's type is substituted
+	if ts := c.FuncDecl("compiler", "funcContext.translateStmt"); ts != nil {
+		ast.Inspect(ts.Body, func(x ast.Node) bool {
+			is, ok := x.(*ast.IfStmt)
+			if !ok || is.Init == nil {
+				return true
+			}
+			as, ok := is.Init.(*ast.AssignStmt)
+			if !ok || len(as.Lhs) != 1 || len(as.Rhs) != 1 || !strings.Contains(exprStr(as.Rhs[0]), ".Implicits[") {
+				return true
+			}
+			v := exprStr(as.Lhs[0])
+			// every `v.Type()` must be the argument of a Substitute call
+			var stack []ast.Node
+			okAll, uses := true, 0
+			ast.Inspect(is.Body, func(m ast.Node) bool {
+				if m == nil {
+					stack = stack[:len(stack)-1]
+					return true
+				}
+				stack = append(stack, m)
+				if ce, isCall := m.(*ast.CallExpr); isCall && exprStr(ce.Fun) == v+".Type" {
+					uses++
+					substituted := false
+					if len(stack) >= 2 {
+						if pc, isPC := stack[len(stack)-2].(*ast.CallExpr); isPC {
+							if sel, isSel := pc.Fun.(*ast.SelectorExpr); isSel && sel.Sel.Name == "Substitute" {
+								substituted = true
+							}
+						}
+					}
+					if !substituted {
+						okAll = false
+					}
+				}
+				return true
+			})
+			r.Check(okAll && uses >= 1, "reviewed:Implicits-substituted", c.Pos(is.Pos()), fmt.Sprintf("the type of the type-switch clause variable (%s.Type(), %d read(s)) is always passed through typeResolver.Substitute: inside a generic instance `case T:` must bind the variable with the instance's type argument, which decides whether the value is unwrapped", v, uses))
+			return true
+		})
+	}
+	// literalFuncContext: the generic signature is only used to build the synthetic function object
+	if lf := c.FuncDecl("compiler", "funcContext.literalFuncContext"); lf != nil {
+		t := squash(nodeString(c, lf.Body))
+		r.Check(strings.Contains(t, "sig:=fc.pkgCtx.TypeOf(fun).(*types.Signature)") && strings.Contains(t, "types.NewFunc(fun.Pos(),fc.pkgCtx.Pkg,fc.newLitFuncName(),sig)"), "reviewed:literal-signature-kept-generic", c.Pos(lf.Pos()), "the unsubstituted literal signature only feeds the synthetic *types.Func of the literal (its result variables must be the objects used in the body)")
+	}
 	// the wrappers do substitute
 	for fn, frag := range map[string]string{"funcContext.typeOf": "fc.typeResolver.Substitute(typ)", "funcContext.selectionOf": "fc.typeResolver.SubstituteSelection(sel)", "funcContext.instanceOf": "fc.typeResolver.SubstituteAll(i.TypeArgs)", "funcContext.fieldType": "fc.typeResolver.Substitute(t.Field(i).Type())"} {
 		fd := c.FuncDecl("compiler", fn)
